@@ -124,14 +124,16 @@ def replacerCallSites : List (String × String × String × String) := [
   ("staticresp.go", "ServeHTTP", "ReplaceAll", "codeStr")
 ]
 
-/-- modules/caddyhttp/autohttps.go automaticHTTPSPhase1: the left-hand sides of the assignments that store
-    through the host matcher `hm` it walks (`hm, ok := m.(*MatchHost)` itself is a definition, not a store) -/
+/-- modules/caddyhttp: every store into a host matcher — an element of a MatchHost / *MatchHost value or the whole
+    slice behind a *MatchHost, identified by go/types — in code reachable from (*App).automaticHTTPSPhase1 (the function,
+    its function literals and, transitively, the functions / methods of the package it calls statically; MatchHost's own
+    methods excepted); `["LOAD-FAILED"]` when the package does not type-check -/
 def autoHTTPSHostMatcherStores : List String := []
 
 /-- every Replacer.Replace* call of autohttps.go, matchers.go, caddyauth/basicauth.go and app.go (modules/caddyhttp),
     in source order: (file, function, method, first argument) -/
 def provisionReplacerCallSites : List (String × String × String × String) := [
-  ("autohttps.go", "automaticHTTPSPhase1", "ReplaceOrErr", "d"),
+  ("autohttps.go", "automaticHTTPSPhase1", "ReplaceOrErr", "elem MatchHost"),
   ("matchers.go", "MatchWithError", "ReplaceAll", "host"),
   ("matchers.go", "MatchWithError", "ReplaceAll", "matchPattern"),
   ("matchers.go", "MatchWithError", "ReplaceAll", "param"),
